@@ -40,6 +40,7 @@ class Registry:
         self.max_abs_grad = 0.0
         self.fault = None       # dict(mode="before"|"after", countdown=int, only=None|clsname)
         self.fault_fired = []
+        self.bw_fault = None    # dict(mode="before"|"after", countdown=int): raise InjectedFault in the countdown-th Operation.backward
         self.opclasses = set()
         self.gc_inject = None
 
@@ -144,8 +145,22 @@ def install():
             before = [v._grad is None for v in vars_]
         except Exception:
             vars_, before = (), []
+        bf = REG.bw_fault
+        fire = False
+        if bf is not None:
+            if bf["countdown"] == 0:
+                bf["countdown"] = -1
+                fire = True
+                REG.fault_fired.append((type(self).__name__, "backward:" + bf["mode"]))
+                if bf["mode"] == "before":
+                    raise InjectedFault("injected before an operation's backward")
+            elif bf["countdown"] > 0:
+                bf["countdown"] -= 1
         try:
-            return orig_obackward(self, grad, **kwargs)
+            r = orig_obackward(self, grad, **kwargs)
+            if fire:
+                raise InjectedFault("injected after an operation's backward")
+            return r
         finally:
             try:
                 for i, v in enumerate(vars_):
